@@ -317,6 +317,47 @@ def c02e(ctx):
                 ctx.fail(o, Site(b, rb, 0), "%s can return after spawning repair tasks without having joined them all: the caller would trust unrepaired callees" % fn)
 
 
+def c02f(ctx):
+    """A Snapshot memoises the columns it has read under its query lock.  upgrade_to_exclusive drops the shared lock and
+    waits for the exclusive one: in that gap another task may publish the node, so every memoised column must be
+    forgotten after the new lock is held — a field left out is a stale read carried across a lock gap (the K7 shape, on
+    struct fields)."""
+    prog = ctx.prog
+    o = ctx.ob("C02.f", "Snapshot::upgrade_to_exclusive/forgets-every-memoised-column", "K3+K1",
+               "after re-acquiring the query lock exclusively, upgrade_to_exclusive resets every Option<Option<..>> cache field of Snapshot")
+    adt = next((v for k, v in prog.adts.items() if k.endswith("database::snapshot::Snapshot")), None)
+    if adt is None:
+        ctx.fail(o, "(program)", "anchor missing: the Snapshot struct")
+        return
+    fields = [f["name"] for f in adt["variants"][0]["fields"] if f["ty"].replace(" ", "").startswith("core::option::Option<core::option::Option<")]
+    o.sites = len(fields)
+    if len(fields) < 6:
+        ctx.fail(o, "(program)", "expected >= 6 memoised columns in Snapshot, found %s" % fields)
+    b = ctx.touch(prog.coroutine_of("Snapshot::upgrade_to_exclusive"))
+    acq = b.calls_to(r"QueryLockManager::acquire_exclusive_lock$")
+    if len(acq) != 1:
+        ctx.fail(o, Site(b, 0, 0), "anchor missing: acquire_exclusive_lock in upgrade_to_exclusive")
+        return
+    reset = {}
+    def is_none(a):
+        rv = a.node["rv"]
+        if rv["k"] == "agg":
+            return rv.get("ak") == "adt" and (rv.get("adt") or "").endswith("option::Option") and not rv["ops"]
+        if rv["k"] == "use":
+            os_ = list(df.origins_of_operand(b, rv["op"]))
+            return bool(os_) and all(x.kind == "agg" and (x.site.node["rv"].get("adt") or "").endswith("option::Option") and not x.site.node["rv"]["ops"] for x in os_)
+        return False
+    for a in b.assigns(lambda st: any(e.startswith("f:") for e in st["lhs"][1])):
+        fl = [e[2:].split("#")[0] for e in a.node["lhs"][1] if e.startswith("f:")]
+        if fl and is_none(a) and b.site_dominates(acq[0], a):
+            reset[fl[-1]] = a
+    for f in fields:
+        if f not in reset:
+            ctx.fail(o, acq[0], "upgrade_to_exclusive keeps the memoised `%s` across the gap between the shared and the exclusive lock: what is read from it afterwards may "
+                     "be the state before another task published the node" % f)
+
+
 def run(ctx):
+    ctx.run_clause("C02.f", c02f)
     for c, f in (("C02.a", c02a), ("C02.b", c02b), ("C02.c", c02c), ("C02.c", c02c2), ("C02.d", c02d), ("C02.e", c02e)):
         ctx.run_clause(c, f)
